@@ -50,6 +50,9 @@ package types
 //@   ensures err == nil ==> msg.Sequence != 0 && msg.BridgeId != 0 && msg.OutputIndex != 0                         // C03: ids_nonzero
 //@   ensures err == nil ==> len(msg.Version) == 1 && len(msg.StorageRoot) == 32 && len(msg.LastBlockHash) == 32    // C03: lengths
 //@   ensures err == nil ==> forall j int :: 0 <= j && j < len(msg.WithdrawalProofs) ==> len(msg.WithdrawalProofs[j]) == 32   // C03: proof_lengths
+//@   ensures addrOK(ac, msg.Sender) && addrOK(ac, msg.To) && len(msg.From) > 0 && validDenom(msg.Amount.Denom) && msg.Amount.Amount > 0
+//@        && msg.Sequence != 0 && msg.BridgeId != 0 && msg.OutputIndex != 0 && len(msg.Version) == 1 && len(msg.StorageRoot) == 32 && len(msg.LastBlockHash) == 32
+//@        && (forall j int :: 0 <= j && j < len(msg.WithdrawalProofs) ==> len(msg.WithdrawalProofs[j]) == 32) ==> err == nil    // C04: every_well_formed_claim_passes_validation (any non-empty L2 sender string)
 //@   loop 0 invariant 0 <= $i && $i <= len(msg.WithdrawalProofs)
 //@   loop 0 invariant forall j int :: 0 <= j && j < $i ==> len(msg.WithdrawalProofs[j]) == 32
 
